@@ -1,6 +1,7 @@
 """C14 helper: tiny raster image synthesiser (PNG, JPEG, GIF89a, BMP) written from the format specifications.
 
-    make(fmt, w, h, uid) -> bytes      fmt in {"png", "jpeg", "gif", "bmp"}; uid: int >= 0 (unique payload per image)
+    make(fmt, w, h, uid, lay="") -> bytes   fmt in {"png", "jpeg", "gif", "bmp"}; uid: int >= 0 (unique payload per image);
+                                       lay: file layout (LAYOUTS[fmt]; "" = the minimal file described below)
     sniff(data) -> (fmt, w, h) | None  independent header reader used as ground truth cross-check (selftest)
 
 Every file is structurally complete (a decoder can render it):
@@ -12,10 +13,28 @@ Every file is structurally complete (a decoder can render it):
   BMP   BITMAPFILEHEADER (bfSize = file length, bfOffBits = 14 + 40 + 8), BITMAPINFOHEADER (1 bpp, BI_RGB, bottom-up),
         2 palette entries derived from uid, pixel rows padded to 4 bytes (first row carries uid bits)
 The uid never changes the header fields the library sniffs (signature, dimensions), only payload bytes.
+
+File layouts (`lay`): the same picture written the way other producers write it - what surrounds, precedes or encodes the
+declaration of the pixel size differs, the declared size (and the pixels) do not:
+  JPEG  exif      APP1/Exif in front of the frame header: TIFF structure (IFD0 Orientation, IFD1 = JPEG thumbnail 160x120, a
+                  complete JPEG with its OWN SOF0 inside the segment)
+        meta64k   exif (thumbnail + 40000 bytes of maker-note area) + an ICC profile split over two APP2 segments: the frame
+                  header starts beyond offset 64 KiB (every segment < 64 KiB, as the format demands)
+        meta300k  ... ICC profile of 5 APP2 segments of 60000 bytes: frame header beyond 256 KiB
+        meta1m    ... 17 segments of 65000 bytes: frame header beyond 1 MiB
+        prog      progressive: SOF2, a DC scan and an AC scan (all coefficients zero)
+        sof1      extended sequential: SOF1
+        fill      two X'FF' fill bytes in front of the DQT, SOF0 and SOS markers (T.81 B.1.1.2: any marker may be preceded by fill bytes)
+  PNG   meta64k   pHYs + iTXt "XML:com.adobe.xmp" of 70000 bytes between IHDR and IDAT (the file is > 64 KiB)
+        rgba      colour type 6 (RGBA), 8 bit
+  GIF   87a       GIF87a: no extension blocks (the uid lives in the palette only)
+  BMP   topdown   negative biHeight (rows stored top-down); the declared pixel height is |biHeight|
+        v5        BITMAPV5HEADER (124 bytes) instead of BITMAPINFOHEADER
 Deterministic; no clock, no randomness.
 """
 from __future__ import annotations
 
+import hashlib
 import struct
 import zlib
 
@@ -34,33 +53,91 @@ def _png_chunk(t: bytes, d: bytes) -> bytes:
     return struct.pack(">I", len(d)) + t + d + struct.pack(">I", zlib.crc32(t + d) & 0xFFFFFFFF)
 
 
-def png(w: int, h: int, uid: int) -> bytes:
-    row = bytearray(b"\x00" + bytes([(uid * 37 + 11) & 0xFF]) * w)
+def _blob(n: int, salt: int) -> bytes:
+    """n deterministic metadata bytes that do not deflate (SHA-256 in counter mode, 64 KiB period > the deflate window, read from
+    a salt-dependent offset): real Exif / ICC / XMP payloads are not 200:1 compressible, and the library's ZIP-bomb guard is not
+    this property's subject."""
+    unit = _CACHE.get("blob")
+    if unit is None:
+        unit = _CACHE["blob"] = b"".join(hashlib.sha256(b"verif-c14-blob-%d" % i).digest() for i in range(2048))
+    o = (salt * 4099) % len(unit)
+    return ((unit[o:] + unit[:o]) * (n // len(unit) + 1))[:n]
+
+
+def png(w: int, h: int, uid: int, lay: str = "") -> bytes:
+    if lay not in ("", "meta64k", "rgba"):
+        raise ValueError(lay)
+    v = (uid * 37 + 11) & 0xFF
+    if lay == "rgba":
+        row, ctype = b"\x00" + bytes([v, v, v, 0xFF]) * w, 6
+    else:
+        row, ctype = b"\x00" + bytes([v]) * w, 0
     raw = bytes(row) * h
-    return (b"\x89PNG\r\n\x1a\n" + _png_chunk(b"IHDR", struct.pack(">IIBBBBB", w, h, 8, 0, 0, 0, 0)) +
-            _png_chunk(b"tEXt", b"Comment\x00" + _uid_bytes(uid)) +
+    meta = b""
+    if lay == "meta64k":
+        meta = (_png_chunk(b"pHYs", struct.pack(">IIB", 2835, 2835, 1)) +
+                _png_chunk(b"iTXt", b"XML:com.adobe.xmp\x00\x00\x00\x00\x00" + _blob(70000, uid)))
+    return (b"\x89PNG\r\n\x1a\n" + _png_chunk(b"IHDR", struct.pack(">IIBBBBB", w, h, 8, ctype, 0, 0, 0)) +
+            _png_chunk(b"tEXt", b"Comment\x00" + _uid_bytes(uid)) + meta +
             _png_chunk(b"IDAT", zlib.compress(raw, 9)) + _png_chunk(b"IEND", b""))
 
 
 # ------------------------------------------------------------------------------------------------ JPEG
 
-def jpeg(w: int, h: int, uid: int) -> bytes:
-    out = bytearray(b"\xff\xd8")
-    out += b"\xff\xe0" + struct.pack(">H", 16) + b"JFIF\x00\x01\x01\x00\x00\x01\x00\x01\x00\x00"
-    com = _uid_bytes(uid)
-    out += b"\xff\xfe" + struct.pack(">H", 2 + len(com)) + com
-    out += b"\xff\xdb" + struct.pack(">H", 67) + b"\x00" + bytes([1 + uid % 200] * 64)
-    out += b"\xff\xc0" + struct.pack(">HBHHB", 11, 8, h, w, 1) + bytes([1, 0x11, 0])
-    for tc in (0x00, 0x10):                                   # one DC and one AC table, each holding the single code "0"
-        out += b"\xff\xc4" + struct.pack(">H", 20) + bytes([tc, 1] + [0] * 15 + [0])
-    out += b"\xff\xda" + struct.pack(">HB", 8, 1) + bytes([1, 0x00]) + b"\x00\x3f\x00"
-    nbits = 2 * ((w + 7) // 8) * ((h + 7) // 8)                # per 8x8 block: DC diff 0 (1 bit) + EOB (1 bit)
+def _jseg(marker: int, payload: bytes) -> bytes:
+    assert len(payload) + 2 <= 0xFFFF
+    return bytes([0xFF, marker]) + struct.pack(">H", len(payload) + 2) + payload
+
+
+def _jpeg_scan_bits(w: int, h: int, bits_per_block: int) -> bytes:
+    nbits = bits_per_block * ((w + 7) // 8) * ((h + 7) // 8)
     nbytes = (nbits + 7) // 8
     pad = nbytes * 8 - nbits
     body = bytearray(nbytes)
     if pad:
         body[-1] = (1 << pad) - 1                              # pad the last byte with 1 bits (never 0xff: pad <= 7)
-    out += bytes(body)
+    return bytes(body)
+
+
+def _exif(thumb: bytes, pad: int, salt: int) -> bytes:
+    """APP1 payload: "Exif" + big-endian TIFF; IFD0 {Orientation}, IFD1 {Compression=6, thumbnail offset/length}, the
+    thumbnail, then `pad` bytes nothing points to (maker-note area)."""
+    ifd0 = struct.pack(">H", 1) + struct.pack(">HHIHH", 0x0112, 3, 1, 1, 0) + struct.pack(">I", 26)
+    off_thumb = 26 + 2 + 3 * 12 + 4
+    ifd1 = (struct.pack(">H", 3) + struct.pack(">HHIHH", 0x0103, 3, 1, 6, 0) + struct.pack(">HHII", 0x0201, 4, 1, off_thumb) +
+            struct.pack(">HHII", 0x0202, 4, 1, len(thumb)) + struct.pack(">I", 0))
+    return b"Exif\x00\x00" + b"MM\x00\x2a" + struct.pack(">I", 8) + ifd0 + ifd1 + thumb + _blob(pad, salt)
+
+
+_JPEG_META = {"": None, "prog": None, "sof1": None, "fill": None, "exif": (0, 0, 0), "meta64k": (40000, 2, 15000),
+              "meta300k": (40000, 5, 60000), "meta1m": (40000, 17, 65000)}       # (maker-note bytes, ICC segments, bytes per segment)
+THUMB = (160, 120)
+
+
+def jpeg(w: int, h: int, uid: int, lay: str = "") -> bytes:
+    if lay not in _JPEG_META:
+        raise ValueError(lay)
+    fill = b"\xff\xff" if lay == "fill" else b""
+    out = bytearray(b"\xff\xd8")
+    out += _jseg(0xE0, b"JFIF\x00\x01\x01\x00\x00\x01\x00\x01\x00\x00")
+    if _JPEG_META[lay]:
+        pad, nseg, per = _JPEG_META[lay]
+        out += _jseg(0xE1, _exif(jpeg(THUMB[0], THUMB[1], uid), pad, uid))
+        for n in range(1, nseg + 1):
+            out += _jseg(0xE2, b"ICC_PROFILE\x00" + bytes([n, nseg]) + _blob(per, uid + n))
+    out += _jseg(0xFE, _uid_bytes(uid))
+    out += fill + _jseg(0xDB, b"\x00" + bytes([1 + uid % 200] * 64))
+    sof = {"prog": 0xC2, "sof1": 0xC1}.get(lay, 0xC0)
+    out += fill + _jseg(sof, struct.pack(">BHHB", 8, h, w, 1) + bytes([1, 0x11, 0]))
+    for tc in (0x00, 0x10):                                   # one DC and one AC table, each holding the single code "0"
+        out += _jseg(0xC4, bytes([tc, 1] + [0] * 15 + [0]))
+    if lay == "prog":
+        # DC first scan (Ss=Se=0): one bit per block (difference category 0); AC first scan (1..63): one bit per block (EOB0)
+        out += _jseg(0xDA, bytes([1, 1, 0x00, 0, 0, 0x00])) + _jpeg_scan_bits(w, h, 1)
+        out += _jseg(0xDA, bytes([1, 1, 0x00, 1, 63, 0x00])) + _jpeg_scan_bits(w, h, 1)
+    else:
+        # per 8x8 block: DC diff 0 (1 bit) + EOB (1 bit)
+        out += fill + _jseg(0xDA, bytes([1, 1, 0x00, 0, 63, 0x00])) + _jpeg_scan_bits(w, h, 2)
     out += b"\xff\xd9"
     return bytes(out)
 
@@ -125,13 +202,16 @@ def _gif_lzw_zero(npix: int, min_code: int = 2) -> bytes:
     return _CACHE[key]
 
 
-def gif(w: int, h: int, uid: int) -> bytes:
+def gif(w: int, h: int, uid: int, lay: str = "") -> bytes:
+    if lay not in ("", "87a"):
+        raise ValueError(lay)
     pal = bytes([(uid * 7) & 0xFF, (uid * 13 + 1) & 0xFF, (uid >> 8) & 0xFF, 0xFF, 0xFF, 0xFF])
-    out = bytearray(b"GIF89a")
+    out = bytearray(b"GIF87a" if lay == "87a" else b"GIF89a")
     out += struct.pack("<HHBBB", w, h, 0x80, 0, 0)            # global colour table, 2 entries
     out += pal
-    com = _uid_bytes(uid)
-    out += b"\x21\xfe" + bytes([len(com)]) + com + b"\x00"
+    if lay != "87a":
+        com = _uid_bytes(uid)
+        out += b"\x21\xfe" + bytes([len(com)]) + com + b"\x00"
     out += b"\x2c" + struct.pack("<HHHHB", 0, 0, w, h, 0)
     out += b"\x02" + _gif_lzw_zero(w * h, 2)
     out += b"\x3b"
@@ -140,25 +220,35 @@ def gif(w: int, h: int, uid: int) -> bytes:
 
 # ------------------------------------------------------------------------------------------------ BMP
 
-def bmp(w: int, h: int, uid: int) -> bytes:
+def bmp(w: int, h: int, uid: int, lay: str = "") -> bytes:
+    if lay not in ("", "topdown", "v5"):
+        raise ValueError(lay)
     stride = ((w + 31) // 32) * 4
     rows = bytearray(stride * h)
     rows[0] = (uid & 0xFF) & (0xFF << max(0, 8 - w)) & 0xFF   # only bits of real pixels
     pal = bytes([(uid * 5) & 0xFF, (uid * 11 + 3) & 0xFF, (uid >> 8) & 0xFF, 0, 0xFF, 0xFF, 0xFF, 0])
-    off = 14 + 40 + 8
-    info = struct.pack("<IiiHHIIiiII", 40, w, h, 1, 1, 0, len(rows), 2835, 2835, 2, 0)
+    hsize = 124 if lay == "v5" else 40
+    off = 14 + hsize + 8
+    info = struct.pack("<IiiHHIIiiII", hsize, w, (-h if lay == "topdown" else h), 1, 1, 0, len(rows), 2835, 2835, 2, 0)
+    if lay == "v5":
+        # masks (unused for BI_RGB), bV5CSType = "sRGB", endpoints, gamma, bV5Intent = LCS_GM_IMAGES, profile data/size, reserved
+        info += struct.pack("<IIII", 0, 0, 0, 0) + b"BGRs" + bytes(36) + bytes(12) + struct.pack("<IIII", 4, 0, 0, 0)
+        assert len(info) == 124
     return b"BM" + struct.pack("<IHHI", off + len(rows), 0, 0, off) + info + pal + bytes(rows)
 
 
 _MAKERS = {"png": png, "jpeg": jpeg, "gif": gif, "bmp": bmp}
+LAYOUTS = {"png": ("", "meta64k", "rgba"), "jpeg": tuple(_JPEG_META), "gif": ("", "87a"), "bmp": ("", "topdown", "v5")}
+# layouts that are the same construction with less of it (what a failing case may be shrunk to, besides the plain layout "")
+SIMPLER = {"meta64k": ("exif",), "meta300k": ("exif", "meta64k"), "meta1m": ("exif", "meta64k", "meta300k")}
 
 
-def make(fmt: str, w: int, h: int, uid: int) -> bytes:
-    key = (fmt, w, h, uid)
+def make(fmt: str, w: int, h: int, uid: int, lay: str = "") -> bytes:
+    key = (fmt, w, h, uid, lay) if lay else (fmt, w, h, uid)
     r = _CACHE.get(key)
     if r is None:
-        r = _MAKERS[fmt](w, h, uid)
-        if len(_CACHE) < 4096:
+        r = _MAKERS[fmt](w, h, uid, lay) if lay else _MAKERS[fmt](w, h, uid)
+        if len(_CACHE) < 4096 and len(r) < 200_000:
             _CACHE[key] = r
     return r
 
@@ -222,6 +312,80 @@ def selftest():
                 pass
             except Exception as e:  # noqa
                 probs.append("%s %dx%d: PIL cannot decode: %s" % (f, w, h, e))
+    # file layouts: same declared size, unique payload per uid, structure of each construction
+    for f in FORMATS:
+        for lay in LAYOUTS[f]:
+            if not lay:
+                continue
+            for (w, h) in ((1, 1), (640, 480)):
+                ds = [make(f, w, h, uid, lay) for uid in (0, 1, 2, 255, 300)]
+                if len(set(ds)) != 5:
+                    probs.append("%s/%s %dx%d: payload not unique" % (f, lay, w, h))
+                if any(sniff(d) != (f, w, h) for d in ds):
+                    probs.append("%s/%s %dx%d: sniff %r" % (f, lay, w, h, sniff(ds[0])))
+                if make(f, w, h, 1, lay) == make(f, w, h, 1):
+                    probs.append("%s/%s: same bytes as the plain layout" % (f, lay))
+                d = ds[1]
+                if f == "jpeg":
+                    # walk the segments up to the first scan: every length consistent, exactly one frame header, where it lies
+                    i, sof_at, segs = 2, [], []
+                    while i + 4 <= len(d):
+                        if d[i] != 0xFF:
+                            probs.append("jpeg/%s: no marker at %d" % (lay, i))
+                            break
+                        if d[i + 1] == 0xFF:
+                            i += 1
+                            continue
+                        m, ln = d[i + 1], struct.unpack(">H", d[i + 2:i + 4])[0]
+                        segs.append((m, i, ln))
+                        if 0xC0 <= m <= 0xCF and m not in (0xC4, 0xC8, 0xCC):
+                            sof_at.append(i)
+                        if m == 0xDA:
+                            break
+                        i += 2 + ln
+                    if len(sof_at) != 1 or d[-2:] != b"\xff\xd9":
+                        probs.append("jpeg/%s: frame headers at %r / no EOI" % (lay, sof_at))
+                    least = {"meta64k": 1 << 16, "meta300k": 1 << 18, "meta1m": 1 << 20}.get(lay)
+                    if least and (not sof_at or sof_at[0] <= least + 2048):
+                        probs.append("jpeg/%s: frame header at %r, want beyond %d" % (lay, sof_at, least))
+                    if _JPEG_META[lay]:
+                        app1 = [x for x in segs if x[0] == 0xE1]
+                        t0 = app1[0][1] + 4 + 6                                   # start of the TIFF structure
+                        if d[t0:t0 + 4] != b"MM\x00\x2a":
+                            probs.append("jpeg/%s: no TIFF header in APP1" % lay)
+                        ifd1 = t0 + struct.unpack(">I", d[t0 + 22:t0 + 26])[0]
+                        tags = {struct.unpack(">H", d[ifd1 + 2 + 12 * k:ifd1 + 4 + 12 * k])[0]: struct.unpack(">I", d[ifd1 + 10 + 12 * k:ifd1 + 14 + 12 * k])[0]
+                                for k in range(struct.unpack(">H", d[ifd1:ifd1 + 2])[0])}
+                        th = d[t0 + tags.get(0x0201, 0):t0 + tags.get(0x0201, 0) + tags.get(0x0202, 0)]
+                        if sniff(th) != ("jpeg",) + THUMB or th[-2:] != b"\xff\xd9" or t0 + tags[0x0201] + len(th) > app1[0][1] + 2 + app1[0][2]:
+                            probs.append("jpeg/%s: Exif thumbnail not a JPEG %r inside APP1" % (lay, THUMB))
+                        icc = [x for x in segs if x[0] == 0xE2]
+                        if [d[x[1] + 16] for x in icc] != list(range(1, len(icc) + 1)) or any(d[x[1] + 17] != len(icc) for x in icc):
+                            probs.append("jpeg/%s: ICC chunk numbering" % lay)
+                if f == "png":
+                    i = 8
+                    names = []
+                    while i < len(d):
+                        ln = struct.unpack(">I", d[i:i + 4])[0]
+                        names.append(d[i + 4:i + 8])
+                        if zlib.crc32(d[i + 4:i + 8 + ln]) & 0xFFFFFFFF != struct.unpack(">I", d[i + 8 + ln:i + 12 + ln])[0]:
+                            probs.append("png/%s crc %r" % (lay, names[-1]))
+                        if names[-1] == b"IDAT":
+                            want = h * (1 + w * (4 if lay == "rgba" else 1))
+                            if len(zlib.decompress(d[i + 8:i + 8 + ln])) != want:
+                                probs.append("png/%s idat size" % lay)
+                        i += 12 + ln
+                    if names[0] != b"IHDR" or names[-1] != b"IEND" or (lay == "meta64k" and len(d) <= (1 << 16)):
+                        probs.append("png/%s chunk order %r / size %d" % (lay, names, len(d)))
+                if f == "bmp":
+                    size, off = struct.unpack("<I", d[2:6])[0], struct.unpack("<I", d[10:14])[0]
+                    hs, bw, bh = struct.unpack("<Iii", d[14:26])
+                    stride = ((w + 31) // 32) * 4
+                    if size != len(d) or off != 14 + hs + 8 or len(d) - off != stride * h or bw != w or bh != (-h if lay == "topdown" else h) \
+                            or hs != (124 if lay == "v5" else 40):
+                        probs.append("bmp/%s header fields" % lay)
+                if f == "gif" and (d[:6] != b"GIF87a" or b"\x21" in d[:19]):
+                    probs.append("gif/%s signature / extension" % lay)
     # PNG CRC / zlib
     d = make("png", 3, 2, 9)
     i = 8
